@@ -753,7 +753,7 @@ def run_case(T, case):
         problems.append(('malformed-http-response', err))
     first_line = raw.split(b'\n', 1)[0].strip()
     words = first_line.split()
-    if not (len(words) == 3 and words[2].startswith(b'HTTP/1.')):
+    if not (len(words) == 3 and re.fullmatch(rb'HTTP/1\.[0-9]+', words[2])):
         # not an HTTP/1.x request line: http.server answers in HTTP/0.9 style (body only, maybe nothing) - only
         # termination is required of the library here
         first_line = b''
